@@ -391,7 +391,7 @@ def gen_shape(rng, d, opts):
             return gen_slot(rng)
         if r2 < 0.90:
             return {"k": "I", "val": rng.randint(-3, 9)}
-        return {"k": "X", "tok": rng.randint(0, 3)}
+        return {"k": "X", "tok": rng.choice([0, 1, 2, 3, 9])}     # None, strings, or (9) a class held as an attribute
     if r < 0.70:
         if rng.random() < 0.35:
             return {"k": "O", "cls": "gauss",
@@ -772,7 +772,7 @@ def oracle_query(s, q, r):
         return fails
     template = insts[0]
     if r["kind"] == "exc":
-        cls = ["float-inside-dict"] if has_dict_float(template) and v not in keys else []
+        cls = []
         fails.append(("query raised %s: %s" % (r["exc"], r.get("msg")), cls))
         return fails
     if v in keys:
@@ -991,10 +991,12 @@ def replayable(c, queries):
 
 
 # corpus cases of findings repaired in /repo -> signature of the finding (known_findings/C20.json, status fixed)
-PINNED = {"int-variable": "final-replacement-discarded", "spline-result-float": "spline-result-is-array"}
+PINNED = {"int-variable": "final-replacement-discarded", "spline-result-float": "spline-result-is-array",
+          "dict-floats": "float-inside-dict-raises"}
 # the clause of the oracle each pinned case is about (other failures of the case are reported as usual)
 PINNED_CLAUSE = {"int-variable": ("interpolation variable is", "query raised"),
-                 "spline-result-float": ("interpolated parameters", "query raised", "float parameter")}
+                 "spline-result-float": ("interpolated parameters", "query raised", "float parameter"),
+                 "dict-floats": ("query raised", "float parameter", "parameter ")}
 
 
 def attach_requests(c):
@@ -1051,6 +1053,8 @@ def run(ctx):
             else "final replacing_for_path result is DISCARDED (regression of dbd9428): C20_variable_code no longer compiles")
         ctx.notes["spline_leaf"] = ("SplineInterpolator returns a float: C20_leaf_code applies" if infos["spline_returns_float"]["value"]
                                     else "SplineInterpolator returns a 0-d array (regression of 3338de6): C20_leaf_code no longer compiles")
+        ctx.notes["dict_paths"] = ("path followers index into dicts: C20_dict_code applies" if infos["dict_paths_followed"]["value"]
+                                   else "path followers use getattr only (regression of e3bcee5): C20_dict_code no longer compiles")
         translated = True
     except T.TranslationError as e:
         ctx.obligation("translator:Gen.v", "translator", False, str(e))
@@ -1192,9 +1196,10 @@ MANIFEST = {
             "the spline it is the identity with scipy's default CubicSpline that is pinned bit-exactly (another spline satisfying the "
             "property text would need the oracle table changed), and exactness on linear data is a hypothesis checked at a "
             "condition-number-scaled tolerance. Non-mutation of inputs is checked on the implementation only (the tree model is "
-            "functional, deepcopy and aliasing are not modelled). Dict-valued attributes are oracle-only. Still-known findings: floats "
-            "inside tuples (not interpolated), floats inside dicts (query raises). Repaired in /repo and pinned by regression "
-            "obligations + theorems C20_variable_code / C20_leaf_code: discarded final replacement, spline results as 0-d arrays. Not covered: "
+            "functional, deepcopy and aliasing are not modelled). Dict-valued attributes are oracle-only. Still-known finding: floats "
+            "inside tuples are not interpolated (no small safe repair: shared walk). Repaired in /repo and pinned by regression "
+            "obligations + theorems C20_variable_code / C20_leaf_code / C20_dict_code: discarded final replacement, spline results "
+            "as 0-d arrays, floats below dict-valued attributes (query raised). Not covered: "
             "CovarianceInterpolator, NaN abscissae, int abscissae beyond 2^53.",
     "technique": "machine-checked proof in Coq (translator-regenerated model) + vm_compute correspondence",
 }
